@@ -5,6 +5,7 @@ cd /verif
 IDS="$@"; [ -z "$IDS" ] && IDS=$(ls seeded)
 for id in $IDS; do
   p=$(echo $id | cut -c1-3)
+  if grep -q '"obsolete"' seeded/$id/meta.json 2>/dev/null; then echo "$id: obsolete (skipped)"; continue; fi
   git -C /repo apply /verif/seeded/$id/patch.diff || { echo "$id: patch does not apply"; continue; }
   out=$(timeout 1200 bin/check $p quick 2>/dev/null | grep -E "^VIOLATION" | grep -v no-failing-input-found | head -1)
   git -C /repo checkout -- .
